@@ -69,6 +69,12 @@ func gen1(t *rapid.T) Case {
 			c.AST = root
 		}
 	}
+	if rapid.IntRange(0, 3).Draw(t, "stacklimit") == 0 {
+		// a small backtracking stack: some scans are aborted half-way (captures recorded, nothing
+		// matched); the matches returned by later calls on the same Regexp must still be well-formed
+		l := rapid.SampledFrom([]int{8, 16, 32, 64, 128}).Draw(t, "limit")
+		c.Spec.StackLimit = &l
+	}
 	alpha := []rune("ab()<> \n")
 	if c.AST != nil {
 		alpha = gen.Alphabet(c.AST, false, 10)
@@ -123,7 +129,7 @@ func check(c Case) error {
 		h.LabelIf(c.AST.Has(func(x *ast.Node) bool { return x.K == ast.KGroup && x.G == ast.GBalance }), "balancing")
 	}
 	cre := compat.Wrap(re)
-	for _, in := range c.Inputs {
+	for ii, in := range c.Inputs {
 		s := string(in)
 		r := canon.Decode(s)
 		offs := canon.ByteOffsets(s)
@@ -131,6 +137,9 @@ func check(c Case) error {
 		fail := func(msg string) error {
 			red := c
 			red.Inputs, red.Runes = [][]byte{in}, nil
+			if c.Spec.StackLimit != nil {
+				red.Inputs = c.Inputs[:ii+1] // the earlier (possibly aborted) scans are part of the case
+			}
 			return &failure{red, fmt.Sprintf("pattern %q opts=%s input=%q: %s", c.Spec.Pattern, eng.OptString(c.Spec.Options), s, msg)}
 		}
 		ms, e1 := re.FindStringMatch(s)
@@ -141,6 +150,22 @@ func check(c Case) error {
 			if canon.ErrClass(e1) == "timeout" || canon.ErrClass(e2) == "timeout" {
 				h.Discard("timeout")
 				return nil
+			}
+			if c.Spec.StackLimit != nil && (canon.ErrClass(e1) == "stacklimit" || canon.ErrClass(e2) == "stacklimit") {
+				// the limit error is a permitted outcome of any call (the string entry point may not even
+				// reach the interpreter); what was returned before it must still be well-formed
+				h.Label("stack-limit-abort")
+				for i, m := range seqS {
+					if err := canon.Validate(re, m, r, &s); err != nil {
+						return fail(fmt.Sprintf("string iteration match %d (before the stack limit error): %v", i, err))
+					}
+				}
+				for i, m := range seqR {
+					if err := canon.Validate(re, m, r, nil); err != nil {
+						return fail(fmt.Sprintf("rune iteration match %d (before the stack limit error): %v", i, err))
+					}
+				}
+				continue
 			}
 			if canon.ErrClass(e1) != canon.ErrClass(e2) {
 				return fail(fmt.Sprintf("errors differ: %v vs %v", e1, e2))
@@ -159,6 +184,9 @@ func check(c Case) error {
 		}
 		// mappers agree
 		all, err := re.FindAllStringIndex(s, -1)
+		if err != nil && c.Spec.StackLimit != nil && canon.ErrClass(err) == "stacklimit" {
+			continue
+		}
 		if err != nil {
 			return fail("FindAllStringIndex: " + err.Error())
 		}
